@@ -167,17 +167,22 @@ def handleUnit : List Sx → Sx
     match decSEnv parent, decSEnv vars with
     | some p, some v => Sx.ok (encDict ({ parent := p, vars := v } : Ctx String).getAll)
     | _, _ => Sx.bad
-  -- the target's context for a situation given as (ctx.parent ctx.vars ctx.gkeys locals tgtGlobals kind withCtx)
-  | [.atom "target", parent, vars, gkeys, locals, tgtg, kind, wc] =>
-    match decSEnv parent, decSEnv vars, (do Sx.mapM? Sx.toStr? (← gkeys.toList?)), decLocals locals, decSEnv tgtg,
-          decKind kind, wc.toBool? with
-    | some p, some v, some gk, some l, some tg, some k, some wc =>
-      let s : Situation String := { ctx := { parent := p, vars := v, gkeys := gk }, locals := l, srcGlobals := [],
-                                    tgtGlobals := tg, kind := k, withCtx := wc }
-      match targetCtx s with
-      | some c => Sx.ok (.list [encCtx c, Sx.ofBool (servedFromCache s)])
-      | none => Sx.err "KeyError"
-    | _, _, _, _, _, _, _ => Sx.bad
+  -- the target's context for a situation given as (ctx.parent ctx.vars ctx.gkeys ctx._globals locals tgtGlobals kind withCtx)
+  | [.atom "target", parent, vars, gkeys, cglobals, locals, tgtg, kind, wc] =>
+    match decSEnv parent, decSEnv vars, (do Sx.mapM? Sx.toStr? (← gkeys.toList?)), decSEnv cglobals, decLocals locals,
+          decSEnv tgtg, decKind kind, wc.toBool? with
+    | some p, some v, some gk, some cg, some l, some tg, some k, some wc =>
+      let s : Situation String := { ctx := { parent := p, vars := v, gkeys := gk, globals := cg }, locals := l,
+                                    srcGlobals := cg, tgtGlobals := tg, kind := k, withCtx := wc }
+      Sx.ok (.list [encCtx (targetCtx s), Sx.ofBool (servedFromCache s)])
+    | _, _, _, _, _, _, _, _ => Sx.bad
+  -- Context.derived(locals) of Context(parent, vars, gkeys, _globals): (parent gkeys _globals) of the result
+  | [.atom "derived", parent, vars, gkeys, cglobals, locals] =>
+    match decSEnv parent, decSEnv vars, (do Sx.mapM? Sx.toStr? (← gkeys.toList?)), decSEnv cglobals, decLocals locals with
+    | some p, some v, some gk, some cg, some l =>
+      let c := ({ parent := p, vars := v, gkeys := gk, globals := cg } : Ctx String).derived l
+      Sx.ok (.list [encCtx c, encDict c.globals])
+    | _, _, _, _, _ => Sx.bad
   -- exported_vars bookkeeping over a list of top-level bindings
   | [.atom "exports", .list binds] =>
     match Sx.mapM? decBind binds with
